@@ -49,7 +49,17 @@ KINDS = ([("ser_ds", f) for f in DS_FORMATS] + [("ser_view", f) for f in G_FORMA
          + [("query_view", q) for q in ("q_select", "q_ask", "q_construct", "q_describe", "q_optional", "q_agg", "q_path", "q_exists")]
          + [(k, "") for k in ("iso", "to_iso", "canon", "diff", "iter", "slice", "value", "items", "cbd", "all_nodes", "connected",
                               "graphs", "quads", "len", "contains", "resource", "path_eval", "triples_choices", "subjects", "contexts_of", "get_graph", "collection",
-                              "foreign_ctx", "graphs_of", "quad_patterns")])
+                              "foreign_ctx", "graphs_of", "quad_patterns", "prepared", "other_facade")])
+
+_PREPARED = {}
+
+
+def _prepared(key, text):
+    """one prepared query object per text for the life of the process: evaluating it must not leave anything behind in it"""
+    if key not in _PREPARED:
+        from rdflib.plugins.sparql import prepareQuery
+        _PREPARED[key] = prepareQuery(text)
+    return _PREPARED[key]
 
 
 def do_read(w, kind, arg, target):
@@ -124,6 +134,28 @@ def do_read(w, kind, arg, target):
         return (sorted(map(repr, view.subjects(unique=True))), sorted(map(repr, view.predicate_objects(s1))), sorted(map(repr, ds.objects(s1, p1))))
     if kind == "contexts_of":
         return sorted(repr(c.identifier) for c in ds.store.contexts((s1, p1, o1)))
+    if kind == "prepared":
+        # the same prepared query objects evaluated on every call: the row ORDER of each answer is part of what is compared
+        out = []
+        for key, text in (("o2", "SELECT ?s ?p ?o WHERE { ?s ?p ?o } ORDER BY ?p DESC(?s) ?o"), ("o3", "SELECT ?p ?o WHERE { ?s ?p ?o } ORDER BY DESC(?p) ?o ?s LIMIT 5"),
+                          ("agg", "SELECT ?p (COUNT(*) AS ?n) (MAX(?o) AS ?m) WHERE { ?s ?p ?o } GROUP BY ?p ORDER BY DESC(?n) ?p"),
+                          ("opt", "SELECT ?s ?x WHERE { ?s ?p ?o OPTIONAL { ?o ?q ?x FILTER(?x != ?s) } } ORDER BY ?s ?x"),
+                          ("sub", "SELECT ?s WHERE { { SELECT DISTINCT ?s WHERE { ?s ?p ?o } ORDER BY ?s LIMIT 3 } ?s ?q ?z } ORDER BY ?s ?z")):
+            for target_graph in (view, ds, view):       # (an odd number of evaluations per call: a flip-flop left behind in the query object shows)
+                res = target_graph.query(_prepared(key, text))
+                out.append([sorted((str(k), v.n3()) for k, v in b.items() if not isinstance(v, BNode)) for b in res.bindings])
+        return out
+    if kind == "other_facade":
+        # the same store read through a second facade object (a ConjunctiveGraph and a Dataset opened on it)
+        from rdflib import ConjunctiveGraph, Dataset
+        out = []
+        for cls in (ConjunctiveGraph, Dataset):
+            f = cls(store=ds.store)
+            names = sorted(repr(c.identifier) for c in f.contexts())
+            out.append((len(list(f.quads())), sorted(f.serialize(format="nquads").splitlines()), len(f.serialize(format="trig")) > 0,
+                        _rows(f.query("SELECT * WHERE { GRAPH ?g { ?s ?p ?o } }")), len(f)))
+            del names
+        return out
     if kind == "foreign_ctx":
         # questions that name a graph by a Graph object living in ANOTHER store (same and different identifier): nothing is brought in
         f1 = Graph(identifier=view.identifier)
